@@ -261,6 +261,15 @@ pub fn binding(_cex: &Value) -> Result<String, String> {
         if decode_verify(Ser::Flattened, t.as_bytes(), None, &k).is_ok() {
           log.push("verified without a protected header".to_owned());
         }
+        // the token still has to decode to the payload that was handed to the encoder (b64 defaults to true)
+        match Decoder::new().decode_flattened_serialization(t.as_bytes(), None) {
+          Ok(item) => {
+            if item.claims() != b"a" {
+              log.push("token without protected header decodes to a different payload".to_owned());
+            }
+          }
+          Err(e) => log.push(format!("own token without protected header does not decode: {e}")),
+        }
       }
     }
     log
@@ -461,5 +470,37 @@ pub fn policy(_cex: &Value) -> Result<String, String> {
     Err(msg) => Ok(format!("header policy battery panicked: {msg}")),
     Ok(log) if !log.is_empty() => Ok(format!("{} deviations, e.g. {}", log.len(), log[..log.len().min(4)].join("; "))),
     Ok(_) => Err("header policy battery: all expectations met".to_owned()),
+  }
+}
+
+/// C08: unencoded compact payload character rules (RFC 7797 5.2)
+pub fn charset(_cex: &Value) -> Result<String, String> {
+  let r = no_panic(|| -> Vec<String> {
+    let mut log = Vec::new();
+    let mut h = JwsHeader::new();
+    h.set_alg(JwsAlgorithm::EdDSA);
+    h.set_b64(false);
+    h.set_crit(["b64"]);
+    for cp in (0u32..0x100).chain([0x2028, 0x10FFFF]) {
+      let Some(ch) = char::from_u32(cp) else { continue };
+      let payload = format!("a{ch}b");
+      let default_ok = (0x20..=0x7E).contains(&cp) && ch != '.';
+      let url_ok = ch.is_ascii_alphanumeric() || ch == '-' || ch == '_' || ch == '~';
+      for (cs, want, name) in [(CharSet::Default, default_ok, "Default"), (CharSet::UrlSafe, url_ok, "UrlSafe")] {
+        let got = CompactJwsEncoder::new_with_options(payload.as_bytes(), &h, CompactJwsEncodingOptions::NonDetached { charset_requirements: cs }).is_ok();
+        if got != want {
+          log.push(format!("CharSet::{name}: U+{cp:04X} {}", if got { "accepted" } else { "rejected" }));
+        }
+      }
+    }
+    if CompactJwsEncoder::new_with_options(&[0x61, 0xFF], &h, CompactJwsEncodingOptions::NonDetached { charset_requirements: CharSet::Default }).is_ok() {
+      log.push("invalid UTF-8 accepted as unencoded compact payload".into());
+    }
+    log
+  });
+  match r {
+    Err(msg) => Ok(format!("charset battery panicked: {msg}")),
+    Ok(log) if !log.is_empty() => Ok(format!("{} deviations, e.g. {}", log.len(), log[..log.len().min(4)].join("; "))),
+    Ok(_) => Err("charset battery: all expectations met".to_owned()),
   }
 }
